@@ -41,6 +41,7 @@ def build_cfh(config, verbose=False):
             gen_glue.write(config)
         except ImportError:
             pass
+        lib.point_manifest(CFH)
         lock_src = os.path.join(lib.REPO, "Cargo.lock")
         if os.path.exists(lock_src) and not os.path.exists(os.path.join(CFH, "Cargo.lock")):
             shutil.copy(lock_src, os.path.join(CFH, "Cargo.lock"))
